@@ -368,8 +368,7 @@ class CPreProcessor:
     def expand(self, macro_token):
         """Expand a single token into possibly more tokens."""
         name = macro_token.val
-        in_hideset = self.in_hideset(name)
-        # in_hideset = name in macro_token.hideset
+        in_hideset = name in macro_token.hideset
         if self.is_defined(name) and not in_hideset:
             if self.verbose:
                 self.logger.debug("Expanding macro %s", name)
@@ -380,11 +379,16 @@ class CPreProcessor:
                 self.logger.debug("Not expanding function macro %s", name)
                 return False
             else:
-                if self.files[-1].macro_expansions:
-                    hideset = self.files[-1].macro_expansions[-1].hideset
-                else:
-                    hideset = set()
+                # Every token of the expansion remembers the macros it
+                # came from. For a function like macro, this is what the
+                # macro name and the closing parenthesis have in common.
+                hideset = macro_token.hideset
+                if self._closing_paren is not None:
+                    hideset = hideset & self._closing_paren.hideset
                 hideset = hideset | {macro.name}
+                expansion = [token.copy() for token in expansion]
+                for token in expansion:
+                    token.hideset = token.hideset | hideset
 
                 if self.verbose:
                     self.logger.debug("%s expanded into %s", name, expansion)
@@ -397,6 +401,7 @@ class CPreProcessor:
 
     def expand_macro(self, macro, macro_token):
         """Expand a single macro."""
+        self._closing_paren = None
         if isinstance(macro, FunctionMacro):  # Special macro:
             expansion = macro.function(macro_token)
         else:  # Normal macro:
@@ -408,7 +413,9 @@ class CPreProcessor:
                     self.unget_token(token)
                     return
                 args = self.gatherargs(macro)
+                closing_paren = self._closing_paren
                 expansion = self.substitute_arguments(macro, args)
+                self._closing_paren = closing_paren
 
             expansion = self.concatenate(expansion)
         return expansion
@@ -500,6 +507,7 @@ class CPreProcessor:
 
             if parens == 0:
                 args.append(arg)
+                self._closing_paren = token
             elif token.typ == "," and parens == 1:
                 # We have a complete argument, add it to the list:
                 args.append(arg)
